@@ -3,6 +3,7 @@ package rules
 import (
 	"fmt"
 	"go/token"
+	"go/types"
 	"sort"
 	"strings"
 
@@ -186,4 +187,240 @@ func runR189(c *core.Ctx) {
 	if n == 0 {
 		c.Undecided("R18.9", "metrics#reported-count", "-", "no metric is reported under the count/kept tag offsets")
 	}
+}
+
+// runR1810 (R18.10): a counter's reported value is the sum of the increments applied to it.
+//
+//	(a) update side: every exported function of the metrics package that updates an element of a package-level value
+//	    array through sync/atomic indexes the array by its id parameter and adds / stores its value parameter (the
+//	    constant 1 when it has none);
+//	(b) report side: in every metric record a reporting function builds, the name and the value are taken from the
+//	    same index of their package-level arrays (name table and value table are parallel arrays).
+func runR1810(c *core.Ctx) {
+	c.Rule("R18.10", "a counter or gauge reports what was applied to it: update functions index the value array by their id parameter and add/store their value parameter (or the constant 1); reporting functions take a record's name and value from the same index of the parallel tables", 6)
+	pv := &ssax.Prov{}
+	n := 0
+	for _, fn := range pkgFuncs(c, "metrics") {
+		if fn.Parent() != nil || fn.Signature.Recv() != nil || len(fn.Params) == 0 {
+			continue
+		}
+		counts := map[string]int{}
+		ssax.Instrs(fn, func(ins ssa.Instruction) {
+			cc := ssax.CallOf(ins)
+			if cc == nil {
+				return
+			}
+			name := ssax.CalleeName(cc)
+			if name != "sync/atomic.AddUint64" && name != "sync/atomic.StoreUint64" {
+				return
+			}
+			ia, ok := ssax.Unwrap(cc.Args[0]).(*ssa.IndexAddr)
+			if !ok || ssax.GlobalLoad(ia.X) == nil && globalArray(ia.X) == nil {
+				return
+			}
+			// only the API functions whose first parameter is the metric id
+			idP := fn.Params[0]
+			if types.TypeString(idP.Type(), nil) != "uint32" || !fn.Object().Exported() {
+				return
+			}
+			n++
+			key := ordinalKey(counts, core.FuncName(fn)+"#update")
+			var bad []string
+			if !ssax.All(pv.Sources(ia.Index), func(s ssax.Src) bool { return s.Kind == "param" && s.V == ssa.Value(idP) && len(s.Path) == 0 }) {
+				bad = append(bad, "the array is not indexed by the id parameter ("+strings.Join(ssax.Strings(pv.Sources(ia.Index)), ",")+")")
+			}
+			var valP *ssa.Parameter
+			for _, p := range fn.Params[1:] {
+				if b, ok := p.Type().Underlying().(*types.Basic); ok && b.Info()&types.IsNumeric != 0 {
+					valP = p
+				}
+			}
+			val := cc.Args[1]
+			if valP != nil {
+				if !ssax.Any(pv.Sources(val), func(s ssax.Src) bool { return s.Kind == "param" && s.V == ssa.Value(valP) }) && !derivesFromParam(val, valP) {
+					bad = append(bad, "the "+valP.Name()+" parameter does not reach the value that is added/stored ("+val.String()+")")
+				}
+			} else if name == "sync/atomic.AddUint64" {
+				if k, ok := ssax.ConstInt(val); !ok || k != 1 {
+					bad = append(bad, "an increment without amount adds "+val.String()+" instead of 1")
+				}
+			}
+			c.Check(len(bad) == 0, "R18.10", key, c.P.Pos(ins.Pos()), "indexed by the id parameter; the value parameter (or 1) is applied", strings.Join(bad, "; ")+": the reported value is not the number (or sum) of increments applied")
+		})
+	}
+	// (b) report side
+	for _, fn := range pkgFuncs(c, "metrics") {
+		type rec struct {
+			name, val ssa.Value
+			pos       token.Pos
+		}
+		recs := map[ssa.Value]*rec{}
+		var order []ssa.Value
+		ssax.Instrs(fn, func(ins ssa.Instruction) {
+			st, ok := ins.(*ssa.Store)
+			if !ok {
+				return
+			}
+			fa, ok := st.Addr.(*ssa.FieldAddr)
+			if !ok {
+				return
+			}
+			t := ssax.ShortType(fa.X.Type())
+			if !strings.HasSuffix(t, "metrics.IntMetric") && !strings.HasSuffix(t, "metrics.FloatMetric") {
+				return
+			}
+			r := recs[fa.X]
+			if r == nil {
+				r = &rec{pos: st.Pos()}
+				recs[fa.X] = r
+				order = append(order, fa.X)
+			}
+			switch f, _ := ssax.FieldName(fa); f {
+			case "Name":
+				r.name = st.Val
+			case "Val":
+				r.val = st.Val
+			}
+		})
+		counts := map[string]int{}
+		for _, base := range order {
+			r := recs[base]
+			if r.name == nil || r.val == nil {
+				continue
+			}
+			ni := globalIndices(r.name)
+			vi := globalIndices(r.val)
+			if len(ni) == 0 || len(vi) == 0 {
+				continue
+			}
+			n++
+			key := ordinalKey(counts, core.FuncName(fn)+"#record")
+			ok := true
+			for v := range vi {
+				if !ni[v] {
+					ok = false
+				}
+			}
+			c.Check(ok, "R18.10", key, c.P.Pos(r.pos), "name and value come from the same index of their tables",
+				"a reported record takes its name from one index of the name table and its value from another index of the value table: a metric is reported under another metric's name")
+		}
+	}
+	// (c) every value table that is reported is updated by some function of the package, and every table that is
+	// updated is reported: an update function that writes another kind's table leaves its own table silent
+	written, read := map[string]token.Pos{}, map[string]token.Pos{}
+	for _, fn := range pkgFuncs(c, "metrics") {
+		ssax.Instrs(fn, func(ins ssa.Instruction) {
+			cc := ssax.CallOf(ins)
+			if cc == nil || len(cc.Args) == 0 || !strings.HasPrefix(ssax.CalleeName(cc), "sync/atomic.") {
+				return
+			}
+			ia, ok := ssax.Unwrap(cc.Args[0]).(*ssa.IndexAddr)
+			if !ok {
+				return
+			}
+			g := ssax.GlobalLoad(ia.X)
+			if g == nil {
+				g = globalArray(ia.X)
+			}
+			if g == nil {
+				return
+			}
+			switch {
+			case strings.Contains(ssax.CalleeName(cc), ".Load"):
+				read[g.Name()] = ins.Pos()
+			case strings.Contains(ssax.CalleeName(cc), ".Add"), strings.Contains(ssax.CalleeName(cc), ".Store"), strings.Contains(ssax.CalleeName(cc), ".Swap"):
+				written[g.Name()] = ins.Pos()
+			}
+		})
+	}
+	var names []string
+	for g := range read {
+		names = append(names, g)
+	}
+	for g := range written {
+		if _, ok := read[g]; !ok {
+			names = append(names, g)
+		}
+	}
+	sort.Strings(names)
+	for _, g := range names {
+		_, w := written[g]
+		_, r := read[g]
+		n++
+		pos := read[g]
+		if !r {
+			pos = written[g]
+		}
+		switch {
+		case w && r:
+			c.OK("R18.10", "metrics."+g+"#updated-and-reported", c.P.Pos(pos), "the table is updated atomically and read by a reporting function")
+		case r:
+			c.Violate("R18.10", "metrics."+g+"#updated-and-reported", c.P.Pos(pos), "the value table "+g+" is reported but no function of the package ever updates it: the update function of this metric kind writes somewhere else, so the reported value never changes")
+		default:
+			c.Violate("R18.10", "metrics."+g+"#updated-and-reported", c.P.Pos(pos), "the value table "+g+" is updated but never read by a reporting function: what is applied to these metrics is not reported")
+		}
+	}
+	if n == 0 {
+		c.Undecided("R18.10", "metrics#value-flow", "-", "no atomic update of a package-level value array and no reported record found")
+	}
+}
+
+func globalArray(v ssa.Value) *ssa.Global {
+	g, _ := ssax.Unwrap(v).(*ssa.Global)
+	return g
+}
+
+func derivesFromParam(v ssa.Value, p *ssa.Parameter) bool {
+	seen := map[ssa.Value]bool{}
+	var walk func(v ssa.Value, d int) bool
+	walk = func(v ssa.Value, d int) bool {
+		if v == nil || seen[v] || d > 8 {
+			return false
+		}
+		seen[v] = true
+		if v == ssa.Value(p) {
+			return true
+		}
+		if ins, ok := v.(ssa.Instruction); ok {
+			for _, op := range ins.Operands(nil) {
+				if op != nil && *op != nil && walk(*op, d+1) {
+					return true
+				}
+			}
+		}
+		return false
+	}
+	return walk(v, 0)
+}
+
+// globalIndices: the index values with which package-level arrays/slices are indexed in the backward slice of v
+// (through loads, conversions, calls and their arguments).
+func globalIndices(v ssa.Value) map[ssa.Value]bool {
+	out := map[ssa.Value]bool{}
+	seen := map[ssa.Value]bool{}
+	var walk func(v ssa.Value, d int)
+	walk = func(v ssa.Value, d int) {
+		if v == nil || seen[v] || d > 10 {
+			return
+		}
+		seen[v] = true
+		if ia, ok := v.(*ssa.IndexAddr); ok {
+			if ssax.GlobalLoad(ia.X) != nil || globalArray(ia.X) != nil {
+				out[ssax.Unwrap(ia.Index)] = true
+				return
+			}
+		}
+		if ins, ok := v.(ssa.Instruction); ok {
+			if _, isPhi := v.(*ssa.Phi); isPhi {
+				return
+			}
+			for _, op := range ins.Operands(nil) {
+				if op != nil && *op != nil {
+					walk(*op, d+1)
+				}
+			}
+		}
+	}
+	walk(v, 0)
+	return out
 }
